@@ -126,13 +126,43 @@ def affine_scale_ctor(ctx):
             ctx.oblige(f"C11/{cname}.__init__/post/accepts_only_positive_scale#{i}", scale.e > 0, p.cond, props, fn=fnq, replay=rp)
             w = o.scale
             ok = isinstance(w, Obj) and obj_class(w) is W
-            ctx.oblige(f"C11/{cname}.__init__/struct/scale_is_softplus_reparam#{i}", ok and obj_class(w.bijection).__name__ == "SoftPlus", [], props, kind="struct", fn=fnq)
+            ctx.oblige(f"C11/{cname}.__init__/struct/scale_is_softplus_reparam#{i}", ok and obj_class(w.bijection).__name__ == "SoftPlus", [], props, kind="applicability", fn=fnq)
             if ok:
                 pu = it.explore(lambda w=w: method(W, "unwrap")(w))
                 if len(pu) == 1 and pu[0].outcome == "return":
                     ctx.oblige(f"C11/{cname}.__init__/post/reproduces_scale#{i}", lift(pu[0].value) == scale.e, p.cond + pu[0].cond, props, fn=fnq, replay=rp, rounds=3, extra_terms=[exp(lift(pu[0].value)), exp(scale.e)])
             if cname == "Affine":
                 ctx.oblige(f"C11/Affine.__init__/post/reproduces_loc#{i}", lift(o.loc) == loc.e, p.cond, props, fn=fnq, replay=rp)
+    # loc and scale broadcast against each other: a scalar scale with a vector loc (and vice versa).  Every stored parameter must
+    # have the bijection's full shape, otherwise the log-determinant (a sum over the stored scale) counts too few elements
+    cls = it.repo_class("flowjax.bijections.affine.Affine")
+    fnq = "flowjax.bijections.affine.Affine.__init__"
+    s0 = SV(z3.Real("scalar_scale"))
+    l0 = SV(z3.Real("scalar_loc"))
+    for tagb, args in (("scalar_scale", (loc, s0)), ("scalar_loc", (l0, scale))):
+        state["start"] = len(it.side)
+
+        def build(args=args):
+            state["start"] = len(it.side)
+            return cls(*args)
+
+        old_isfinite = it.lib.overrides["jax.numpy.isfinite"]
+        it.lib.overrides["jax.numpy.isfinite"] = lambda v, s0=s0: SV(z3.BoolVal(True), True) if isinstance(v, SV) and (v.e.eq(scale.e) or v.e.eq(s0.e)) else old_isfinite(v)
+        paths = it.explore(build)
+        it.lib.overrides["jax.numpy.isfinite"] = old_isfinite
+        okp = [p for p in paths if p.outcome == "return"]
+        ctx.oblige(f"C05/Affine.__init__[{tagb}]/struct/has_success_path", len(okp) >= 1, [], props, kind="applicability", fn=fnq)
+        for i, p in enumerate(okp):
+            o = p.value
+            w = o.scale
+            if not (isinstance(w, Obj) and obj_class(w) is W):
+                continue
+            pu = it.explore(lambda w=w: method(W, "unwrap")(w))
+            if len(pu) == 1 and pu[0].outcome == "return" and isinstance(pu[0].value, SV):
+                us = pu[0].value
+                shape_ok = us.elem and tuple(us.shape) == tuple(o.shape) and isinstance(o.loc, SV) and o.loc.elem and tuple(o.loc.shape) == tuple(o.shape) and tuple(o.shape) == SHAPE
+                ctx.oblige(f"C05/Affine.__init__[{tagb}]/post/stored_scale_and_loc_have_the_broadcast_shape#{i}", bool(shape_ok), [], props, kind="struct", fn=fnq, replay=dict(kind="c05", cls="Normal", vars={}),
+                           note=f"shape {o.shape}, stored scale shape {us.shape if us.elem else ()}, loc shape {o.loc.shape if isinstance(o.loc, SV) and o.loc.elem else ()}")
 
 
 # --------------------------------------------------------------------------------------
@@ -239,7 +269,7 @@ def knots(ctx):
         P = p.value
         ctx.oblige(f"C11/_real_to_increasing_on_interval/post/accepts_only_if#{i}", adj >= 0, pre + p.cond, props, fn=fnq)
         w = facts[-1] if facts else None
-        ctx.oblige(f"C11/_real_to_increasing_on_interval/struct/cumsum_of_widths#{i}", w is not None and w.total is not None, [], props, kind="struct", fn=fnq)
+        ctx.oblige(f"C11/_real_to_increasing_on_interval/struct/cumsum_of_widths#{i}", w is not None and w.total is not None, [], props, kind="applicability", fn=fnq)
         if w is None or w.total is None:
             continue
         j = z3.Int("j")
